@@ -1,1 +1,13 @@
-fn main(){}
+//! regprobe — the same probing code as in vcheck, but built WITHOUT the codec features of
+//! dicom-transfer-syntax-registry (build it with `cargo build -p regprobe` so that features
+//! are not unified with vcheck's).
+fn main() {
+    let args: Vec<String> = std::env::args().collect();
+    match args.get(1).map(|s| s.as_str()) {
+        Some("registry") => println!("{}", probe::registry::describe()),
+        _ => {
+            eprintln!("usage: regprobe registry");
+            std::process::exit(2);
+        }
+    }
+}
